@@ -171,15 +171,20 @@ def process_job(job, known, out, prop, log):
 
 
 def run_property(prop, module, tier, only=None, jobs_n=None, log=print):
-  M = importlib.import_module(module)
-  conds = [c for c in condmod.REGISTRY[module] if tier in c.tiers and c.engine == 'xh']
-  if only:
-    conds = [c for c in conds if c.name in only]
+  """`module` may be a list: the conditions of several harness modules decide one property."""
+  modules = [module] if isinstance(module, str) else list(module)
   known = load_known(prop)
   out = Outcome()
   jobs = []
-  for c in conds:
-    jobs.extend(expand_jobs(module, c, tier))
+  conds = []
+  for m in modules:
+    importlib.import_module(m)
+    cs = [c for c in condmod.REGISTRY[m] if tier in c.tiers and c.engine == 'xh']
+    if only:
+      cs = [c for c in cs if c.name in only]
+    conds.extend(cs)
+    for c in cs:
+      jobs.extend(expand_jobs(m, c, tier))
   out.obligations = len(jobs)
   n = jobs_n or int(os.environ.get('VERIF_JOBS', '0')) or min(16, os.cpu_count() or 4)
   # longest first
